@@ -77,6 +77,8 @@ def render_line(l):
         return "%sif 1:" % ind, None, None
     if k == "els":
         return "%selse:" % ind, None, None
+    if k == "tup":
+        return "%s%s, %s" % (ind, n, u), i, i + len(n) + 2
     raise ValueError(k)
 
 
@@ -495,7 +497,9 @@ def check_program(item):
                             continue
                         vis = set(inf["visT" if later else "visF"])
                         stats["sound_checks"] += 1
-                        extra = sorted(x for x in got - vis - BUILTINS - KEYWORDS if not x.endswith("="))
+                        # keyword-argument proposals (name=) are only meaningful inside the brackets of a call
+                        in_call = "(" in src[line_start:off]
+                        extra = sorted(x for x in got - vis - BUILTINS - KEYWORDS if not (x.endswith("=") and in_call))
                         if extra:
                             what = "name-imported-later" if (not later and imported_later(li, extra)) else "name"
                             fail("Soundness", mode, later, mf, off, li,
@@ -639,7 +643,10 @@ def main(tier):
     res5, behs5 = run_tlc(6, 3, export=True, tag="f", kinds="MCIfFocusKinds", preludes="MCIfPreludes",
                           hoffsets=(1,))
     print("TLC PyAssist exhaustive (if/else last in a function):", res5.summary())
-    for r in (res1, res2, res3, res4, res5):
+    res6, behs6 = run_tlc(5, 1, export=True, tag="u", kinds="MCTupFocusKinds", preludes="MCTupPreludes",
+                          hoffsets=(1,))
+    print("TLC PyAssist exhaustive (names without brackets after a callable):", res6.summary())
+    for r in (res1, res2, res3, res4, res5, res6):
         if not r.ok:
             verdict.machinery_failure("TLC: %s %s\n%s" % (r.violated, r.error, (r.trace or r.tail)[-1500:]))
     if verdict.machinery:
@@ -661,7 +668,8 @@ def main(tier):
     tries = [b for b in uniq(behs4) if any(i["below"] for i in b["info"])]
     nested = [b for b in behs4 if sum(l["k"] == "try" for l in b["lines"]) >= 2 and not any(i["below"] for i in b["info"])]
     ifs = [b for b in uniq(behs5) if any(l["k"] == "els" for l in b["lines"])]
-    for lst in (imps, tries, nested, ifs):
+    tups = [b for b in uniq(behs6) if any(l["k"] == "tup" for l in b["lines"])]
+    for lst in (imps, tries, nested, ifs, tups):
         lst.sort(key=lambda b: json.dumps([b["lines"], b["hoff"]], sort_keys=True))
         rnd.shuffle(lst)
     small.sort(key=lambda b: json.dumps([b["lines"], b["hoff"]], sort_keys=True))
@@ -672,9 +680,9 @@ def main(tier):
     nestd = [b for b in small if any(l["d"] > 0 for l in b["lines"])]
     flat = [b for b in small if not any(l["d"] > 0 for l in b["lines"])]
     if quick:
-        chosen = nestd[:110] + flat[:30] + big[:160] + imps[:50] + tries[:60] + nested[:30] + ifs[:60]
+        chosen = nestd[:110] + flat[:30] + big[:160] + imps[:50] + tries[:60] + nested[:30] + ifs[:60] + tups[:40]
     else:
-        chosen = nestd[:1600] + flat[:200] + big[:2000] + imps[:600] + tries[:800] + nested[:300] + ifs[:600]
+        chosen = nestd[:1600] + flat[:200] + big[:2000] + imps[:600] + tries[:800] + nested[:300] + ifs[:600] + tups[:200]
     items = [(b, k) for k, b in enumerate(chosen)]
     totals = {}
     replayed = 0
@@ -704,7 +712,7 @@ def main(tier):
         samples.append({"program": render(chosen[0]["lines"])[0]})
     code = verdict.finish()
     common.write_evidence(PROP, tier, "model_checking", {
-        "states": res1.distinct + res2.generated + res3.generated + res4.distinct + res5.distinct,
+        "states": res1.distinct + res2.generated + res3.generated + res4.distinct + res5.distinct + res6.distinct,
         "transitions": res1.generated + res2.generated + res3.generated + res4.generated,
         "traces_validated_against_impl": replayed,
         "samples": samples,
